@@ -152,9 +152,12 @@ def run(chk):
                     body.append("Eval vm_compute in (let '(r, d) := d_run_writer %s %s %s in (is_ok r, length d))." % (coq_stack(p["stack"]), coq_prog(p["prog"]), coq_sched(c["sched"])))
                 open(vfile, "w").write("Require Import FlacBase.Res FlacBase.Bits FlacUpdIo.Update FlacUpdIo.IoFault.\nOpen Scope N_scope.\n" + "\n".join(body) + "\n")
                 rc, vout = sh("coqc -noglob %s %s" % (c10mod.QFLAGS, vfile), cwd=AREA, timeout=600)
-                got = re.findall(r"=\s*\((true|false),\s*(\d+)\)", vout)
+                got = re.findall(r"=\s*\((true|false),\s*(\d+)(?:%nat)?\)", vout)
                 exp = [("true" if c["class"] == "ok" else "false", c["dev"].split(":")[0]) for c, _ in sample]
-                if rc != 0 or [g for g in got] != exp:
+                # after an error only the class is compared
+                got = [(a, b if a == "true" else "*") for a, b in got]
+                exp = [(a, b if a == "true" else "*") for a, b in exp]
+                if rc != 0 or got != exp:
                     bad = next((i for i, (a, b) in enumerate(zip(got, exp)) if a != b), None)
                     chk.violation("correspondence:io-model-vm", "vm_compute evaluation of the I/O model disagrees with the implementation",
                                   {"coq_output": vout[-2000:], "first_difference": None if bad is None else {"case": sample[bad][0], "coq": got[bad], "impl": exp[bad]},
